@@ -34,6 +34,11 @@ def _work(args):
     si, prefix = args
     sub = _SUBS[si]
     col = explorer.Collector()
+    if _KNOWN:
+        def matcher(key, sig, _name=sub.name):
+            k = match_known(_KNOWN, _name, {"key": key, "sig": sig})
+            return k["id"] if k is not None else None
+        col.known_matcher = matcher
     try:
         explorer.explore(sub.driver, sub.ctx, prefix, col, budget=sub.budget)
     except explorer.HarnessError:
@@ -94,8 +99,12 @@ def confirm(sub, v):
     return all(want in k for k in keys) and keys[0] == keys[1]
 
 
+_KNOWN = []
+
+
 def run_property(prop_id, tier, seed, jobs, only=None):
-    global _SUBS
+    global _SUBS, _KNOWN
+    _KNOWN = load_known(prop_id)
     t0 = time.time()
     mod = importlib.import_module("props." + prop_id.lower())
     subs = mod.subchecks(tier, seed)
@@ -123,7 +132,7 @@ def run_property(prop_id, tier, seed, jobs, only=None):
         agg = per_sub.setdefault(
             name,
             dict(executions=0, skipped=0, nodes=0, edges=0, nontrivial=0, n_violations=0, violations=[],
-                 samples=[], counters={}, digests=set(), shards=0, max_depth=0),
+                 samples=[], counters={}, digests=set(), shards=0, max_depth=0, known_counts={}),
         )
         if err:
             harness_errors.append((name, prefix, err))
@@ -143,6 +152,8 @@ def run_property(prop_id, tier, seed, jobs, only=None):
         for k, n in summ["counters"].items():
             agg["counters"][k] = agg["counters"].get(k, 0) + n
         agg["digests"] |= summ["digests"]
+        for kid, n in summ.get("known_counts", {}).items():
+            agg["known_counts"][kid] = agg["known_counts"].get(kid, 0) + n
     if harness_errors:
         for name, prefix, err in harness_errors[:5]:
             sys.stderr.write("HARNESS ERROR in %s/%s shard %r:\n%s\n" % (prop_id, name, list(prefix), err))
@@ -158,6 +169,9 @@ def run_property(prop_id, tier, seed, jobs, only=None):
         agg = per_sub.get(sub.name)
         if not agg:
             continue
+        for kid, n in agg["known_counts"].items():
+            k = [x for x in known if x["id"] == kid][0]
+            known_seen[kid] = (k, known_seen.get(kid, (k, 0))[1] + n)
         for v in agg["violations"]:
             k = match_known(known, sub.name, v)
             if k is not None:
